@@ -49,16 +49,36 @@ pub fn pos_item(item: &Value) -> Value {
             Err(m) => from.push(json!([line, col, "panic", m])),
         }
     }
-    // ranges go through the same two functions; spot-check the pairing start/end
+    // ranges: for every pair of requested offsets a <= b, to_proto::range must be the two positions of a and b (those are checked
+    // against the reference one by one), and from_proto::range must take it back to what from_proto::position gives for its ends
     let mut ranges = Vec::new();
-    let tos = jarr(item, "to");
-    if tos.len() >= 2 {
-        let a = tos[0][0].as_u64().unwrap_or(0) as u32;
-        let b = tos[tos.len() - 1][0].as_u64().unwrap_or(0) as u32;
-        if let Ok(r) = guarded(|| lsp::to_proto::range(&li, text_size::TextRange::new(a.into(), b.into()))) {
-            ranges.push(json!([a, b, r.start.line, r.start.character, r.end.line, r.end.character]));
-            if let Ok(back) = guarded(|| lsp::from_proto::range(&li, r)) {
-                ranges.push(json!(["back", u32::from(back.start()), u32::from(back.end())]));
+    let offs: Vec<u32> = jarr(item, "to").iter().map(|e| e[0].as_u64().unwrap_or(0) as u32).collect();
+    for (i, &a) in offs.iter().enumerate() {
+        for &b in &offs[i..] {
+            if b < a {
+                continue;
+            }
+            let want = guarded(|| (lsp::to_proto::position(&li, TextSize::from(a)), lsp::to_proto::position(&li, TextSize::from(b))));
+            let got = guarded(|| lsp::to_proto::range(&li, text_size::TextRange::new(a.into(), b.into())));
+            match (want, got) {
+                (Ok((ws, we)), Ok(r)) => {
+                    if r.start != ws || r.end != we {
+                        ranges.push(json!([a, b, "to", [ws.line, ws.character, we.line, we.character], [r.start.line, r.start.character, r.end.line, r.end.character]]));
+                    }
+                    let back_want = guarded(|| (lsp::from_proto::position(&li, r.start), lsp::from_proto::position(&li, r.end)));
+                    let back = guarded(|| lsp::from_proto::range(&li, r));
+                    match (back_want, back) {
+                        (Ok((s0, e0)), Ok(br)) => {
+                            if br.start() != s0 || br.end() != e0 {
+                                ranges.push(json!([a, b, "from", [u32::from(s0), u32::from(e0)], [u32::from(br.start()), u32::from(br.end())]]));
+                            }
+                        }
+                        (Ok(_), Err(m)) => ranges.push(json!([a, b, "from-panic", m])),
+                        _ => {}
+                    }
+                }
+                (Ok(_), Err(m)) => ranges.push(json!([a, b, "to-panic", m])),
+                _ => {}
             }
         }
     }
